@@ -21,12 +21,14 @@ def get_unique_strat_groups(comps, strat):
     which differ only by the strata for 'strat', ie the set of sets
     whose children are specified by 'strat'
     """
-    unique_strat_groups = set()
+    # Use a dict as an insertion-ordered set, so that the order of the groups (and with it the
+    # traced program) does not depend on the interpreter's hash seed
+    unique_strat_groups = {}
     for c in comps:
         cur_strata = c.strata.copy()
         cur_strata.pop(strat)
-        unique_strat_groups.add(CompartmentGroup(c.name, frozenset(cur_strata.items())))
-    return unique_strat_groups
+        unique_strat_groups[CompartmentGroup(c.name, frozenset(cur_strata.items()))] = None
+    return list(unique_strat_groups)
 
 
 def filter_by_strata(comps, strata):
